@@ -102,8 +102,18 @@ def judgeFrameLinked (r : Rec) : List (String × String) × List String := Id.ru
   let mut bad := false
   let mut nsave := 0
   let mut nfail := 0
-  let mut S : LZ4V.Model.FastX.XState := {}
+  -- the state of the context's LZ4 stream when the first block arrives (dumped from the real context)
+  let ini := if r.args.size > 15 then r.bytes 15 else ByteArray.empty
+  let S0 : LZ4V.Model.FastX.XState :=
+    if ini.size ≥ 24 + 4 * LZ4V.Gen.LZ4_HASH_SIZE_U32 then
+      { tbl := (Array.range LZ4V.Gen.LZ4_HASH_SIZE_U32).map (fun i => rdLE ini (24 + 4 * i) 4), currentOffset := rdLE ini 0 4, dictAddr := rdLE ini 8 8, dict := #[], used := rdLE ini 16 4 != 0 }
+    else {}
+  let mut S : LZ4V.Model.FastX.XState := S0
   let mut fails : List (String × String) := []
+  -- the hypotheses of the theorem, checked on the real state: `Inv S0 []` (table entries ≤ currentOffset, no dictionary, nothing attached)
+  if ini.size ≥ 24 then
+    if S0.tbl.any (fun v => v > S0.currentOffset) || rdLE ini 4 4 != 0 || rdLE ini 20 4 != 0 then
+      fails := [("stream_state_invariant_broken", s!"linked frame: the LZ4 stream of the context at the first block: currentOffset={S0.currentOffset} dictSize={rdLE ini 4 4} dictCtx={rdLE ini 20 4} or a table entry above currentOffset")]
   let mut nblk := 0
   while pc < life.size && !bad do
     let kind := life.get! pc
@@ -133,12 +143,13 @@ def judgeFrameLinked (r : Rec) : List (String × String) × List String := Id.ru
   let sched := ops.reverse
   if LZ4V.Model.FrameLinked.contentOf sched != input.toList then
     return ([("model_frame_bytes_differs", s!"linked frame: the blocks handed to the LZ4 stream do not spell out the input ({(LZ4V.Model.FrameLinked.contentOf sched).length} vs {input.size} bytes)")], [])
-  let f := LZ4V.Model.FrameLinked.frame LZ4V.Spec.FrameL.xxhEnv (fun s b => LZ4V.Model.Fast.realHash s b) p sched
+  let f := LZ4V.Model.FrameLinked.frameFrom LZ4V.Spec.FrameL.xxhEnv (fun s b => LZ4V.Model.Fast.realHash s b) p S0 sched
   if fails.isEmpty && f != frame.toList then
     let d := (List.range (min f.length frame.size)).find? (fun i => f.getD i 0 != frame.get! i)
     fails := [("model_frame_bytes_differs", s!"linked frame: model {f.length} bytes, real {frame.size} bytes, first difference at {d} (bsid={p.bsid} level={p.level} bcrc={p.blockChecksum} ccrc={p.contentChecksum} csize={p.contentSize} autoFlush={p.autoFlush} blocks={nblk} saves={nsave})")]
   return (fails, ["framelinked.same", if nsave > 0 then "framelinked.saveDict" else "framelinked.nosave", if nfail > 0 then "framelinked.raw_blocks" else "framelinked.noraw",
-                  if nblk ≥ 2 then "framelinked.blocks.many" else "framelinked.blocks.le1"])
+                  if nblk ≥ 2 then "framelinked.blocks.many" else "framelinked.blocks.le1",
+                  if S0.currentOffset > 0 then (if S0.tbl.any (fun v => v != 0) then "framelinked.reused_context_stale_table" else "framelinked.reused_context_clean_table") else "framelinked.fresh_context"])
 
 def judgeFrame (blobs : Std.HashMap Nat ByteArray) (r : Rec) : Verdict := Id.run do
   let kind := r.nat 0
